@@ -410,7 +410,7 @@ theorem call_mask_matching (fs : List (TField K R)) (αr αc : R) (W0 W1 : Int) 
 
 /-- **A mask of the wrong shape is refused**: the call ends in ValueError iff the mask differs from the output array
 `shape * oversample` in EITHER dimension (generated guard `np.any(mask.shape != shape_out)`); so every mask that is accepted has exactly
-the output shape and `call_mask_matching` applies to it. (Before fix FIXHASH the guard was `np.all`, which let a mask that was wrong in
+the output shape and `call_mask_matching` applies to it. (Before fix c7b8eca the guard was `np.all`, which let a mask that was wrong in
 one dimension through and centred its bounding box on the mask's own shape — former known finding `KF-C02-mask-shape-guard`.) -/
 theorem call_mask_refused_iff (fs : List (TField K R)) (αr αc : R) (W0 W1 : Int) (shape propShape : Gen.ShapeArg) (os : Int) (m : Arr Bool) :
     propagateDftCall fs αr αc W0 W1 shape propShape os (some m) = .valueError ↔
